@@ -143,10 +143,28 @@ class fixed_format_file(object):
         fmt = self.specification[linetype][1]
         strs = []
         for val , f in zip(vals , fmt):
-            if (val is not None) and (f[-1] != 'x'): valstr = ('%%%s'%f) % val
+            if (val is not None) and (f[-1] != 'x'):
+                valstr = ('%%%s'%f) % val
+                w = self.spec_width[f[0:-1]]
+                if len(valstr) > w: valstr = self.fit_value_to_width(val, f, w)
             else: valstr = ' ' * self.spec_width[f[0:-1]] # blank
             strs.append(valstr)
         return ''.join(strs)
+
+    def fit_value_to_width(self, val, f, w):
+        """Returns string for a value whose formatted string is wider than
+        the field width w, so that it does not displace the other
+        fields in the record.  Strings are truncated on the right (as
+        in Fortran), floats are written with reduced precision, and
+        otherwise a ValueError is raised."""
+        fmt, typ = f[:-1], f[-1]
+        if typ == 's': return (('%%%s' % f) % val)[:w]
+        elif typ in ['e', 'f', 'g'] and '.' in fmt:
+            width, dot, prec = fmt.partition('.')
+            for p in range(int(prec) - 1, -1, -1):
+                valstr = ('%%%s.%d%s' % (width, p, typ)) % val
+                if len(valstr) <= w: return valstr
+        raise ValueError("Value %s does not fit in format %s" % (str(val), f))
 
     def read_values(self, linetype):
         """Reads a line from the file, parses it and returns the values."""
